@@ -1,11 +1,11 @@
 SPECIFICATION Spec
 CONSTANTS
-  Design = "student_bookkeeping"
+  Design = "grader_bookkeeping"
   Kind = "printer"
   MaxSteps = 2
   Inject = "base"
   Handback = "per_run"
-  NextRun = "plain"
+  NextRun = "threaded"
   defaultInitValue = defaultInitValue
 INVARIANT ExcIsTimeout
 INVARIANT ExcStable
@@ -13,4 +13,5 @@ INVARIANT OneRuntimeFb
 INVARIANT StacksEmpty
 INVARIANT NoCrash
 INVARIANT NextRunClean
+INVARIANT NextExcNone
 CHECK_DEADLOCK FALSE
